@@ -27,5 +27,10 @@ def run_dims(chk, judge=None, replay=None):
         chk.note_tlc(run)
         chk.absorb(recs, verdicts, rp)
     chk.exhaustive = True
+    # long random histories (beyond the BFS depth): descriptor lists appended / emptied / edited many times on the same array
+    for part in ('a', 'b'):
+        o = PARTS[part]
+        rp = vcheck.Replayer(binary, seed=chk.seed, opts=o, chunk=100)
+        vcheck.absorb_sim(chk, rp, 'NixDims', 'MC_NixDims_%s_sim.cfg' % part, 400 if chk.thorough else 40, 24, judge=judge, tag={'_opts': o})
     chk.traces_validated = len(chk.distinct)
     chk.assumptions += ['descriptor scalars are abstract codes mapped to fixed concrete values (2 good + bad values per field)', 'trusted: TLC, harness/h_dims.cpp']
